@@ -212,7 +212,10 @@ def step (st : St) (line : String) : St × Verdict :=
     let kv := parseKV rest
     match geti kv "netnew", geti kv "hits0", geti kv "misses0", geti kv "hits1", geti kv "misses1", geti kv "window" with
     | some nn, some h0, some m0, some h1, some m1, some w =>
+      -- judged for peers that serve honestly (honest, lagging, stuck = kinds 0-2) in polls that returned normally: a
+      -- flaky or hostile peer may deliver and then fail, which is rightly not a hit
       if nn ≤ 0 then (st, .ok "pstat_nonew")
+      else if (geti kv "kind").getD 0 > 2 || gets kv "res" != "ok" then (st, .ok "pstat_unjudged")
       else
         let expect : Int × Int := if h0 < w then (h0 + 1, m0) else if m0 > 0 then (h0, m0 - 1) else (h0, m0)
         if (h1, m1) == expect then (st, .ok "pstat_hit")
